@@ -785,9 +785,26 @@ pub fn build_locals_named(params: usize, decl: &[u8], used: u32, grouped: bool) 
     w
 }
 
+/// as `build_locals_named`, but the entries whose bit is set in `empty` carry the empty string as
+/// their name (wabt's `--debug-names` writes an entry for every local, empty when it has no name)
+pub fn build_locals_named_with_empty(params: usize, decl: &[u8], used: u32, empty: u32) -> Vec<u8> {
+    let mut w = build_locals(params, decl, used, false);
+    let names: Vec<String> = (0..params + decl.len()).map(|i| if empty & (1 << i) != 0 { String::new() } else { format!("L{}", i) }).collect();
+    let entries: Vec<(u32, &str)> = names.iter().enumerate().map(|(i, n)| (i as u32, n.as_str())).collect();
+    let payload = name_section(&[(1, name_map(&[(0, "the_function")])), (2, indirect_name_map(&[(0, entries)]))]);
+    append_custom(&mut w, "name", &payload);
+    w
+}
+
 pub fn locals_named_family() -> Vec<Member> {
     let tys = [I32, I64, F32, EXTERNREF];
     let mut out = vec![];
+    for params in [0usize, 1] {
+        let decl = [I32, I64, F32];
+        for empty in 1..(1u32 << (params + 3)) {
+            out.push(Member { family: "locals-named", coords: format!("params={},decl={:?},used=111,empty-names={:b}", params, decl, empty), wasm: build_locals_named_with_empty(params, &decl, 0b111, empty) });
+        }
+    }
     for params in 0..=2usize {
         for n in 1..=3usize {
             let total = tys.len().pow(n as u32);
@@ -1955,6 +1972,27 @@ pub fn minimal_family() -> Vec<Member> {
         ("only-tail-call", r#"(module (func $g (result i32) (i32.const 1)) (func (export "f") (result i32) (return_call $g)))"#),
         ("only-multi-memory", r#"(module (memory 1) (memory 1) (func (export "f") (result i32) (i32.load 1 (i32.const 0))))"#),
         ("typed-select-numeric", r#"(module (func (export "f") (param i32) (result i64) (select (result i64) (i64.const 1) (i64.const 2) (local.get 0))))"#),
+        // an else-less if whose block type passes two or more values through (walrus synthesizes the missing arm)
+        ("else-less-if-passing-two-values", r#"(module (func (export "f") (param i32 i64 i32) (result i32 i64) (local.get 0) (local.get 1) (local.get 2)
+            (if (param i32 i64) (result i32 i64) (then (drop) (drop) (i32.const 1) (i64.const 2)))))"#),
+        ("else-less-if-passing-three-values-nested", r#"(module (func (export "f") (param i32) (result i32 f32 i64) (i32.const 5) (f32.const 1) (i64.const 2) (local.get 0)
+            (if (param i32 f32 i64) (result i32 f32 i64) (then (local.get 0) (if (param i32 f32 i64) (result i32 f32 i64) (then (drop) (i64.const 9)))))))"#),
+        // memory.copy / memory.init between memories of different index width, table.copy between tables of different index width
+        ("memory-copy-between-32-and-64-bit-memories", r#"(module (memory $a 1) (memory $b i64 1) (func (export "f") (i32.const 8340) (drop)
+            (memory.copy $a $b (i32.const 0) (i64.const 0) (i32.const 1)) (memory.copy $b $a (i64.const 0) (i32.const 0) (i32.const 1))))"#),
+        ("table-copy-between-32-and-64-bit-tables", r#"(module (table $a 2 funcref) (table $b i64 2 funcref) (func (export "f") (i32.const 8341) (drop)
+            (table.copy $a $b (i32.const 0) (i64.const 0) (i32.const 1)) (table.copy $b $a (i64.const 0) (i32.const 0) (i32.const 1))))"#),
+        // an instruction without any entity operand next to entities nothing uses
+        ("atomic-fence-and-unused-first-memory", r#"(module (memory 1) (memory $used 1) (func (export "f") (result i32) (i32.const 8342) (drop) (atomic.fence) (i32.load $used (i32.const 0))))"#),
+        ("atomic-fence-and-unused-imported-memory", r#"(module (import "env" "m" (memory 1 1 shared)) (func (export "f") (i32.const 8343) (drop) (atomic.fence)))"#),
+        // an empty declared segment in front of segments that table.init / elem.drop name
+        ("empty-declared-elem-before-used-passive", r#"(module (table 4 funcref) (func $a) (func $b) (elem $d declare func) (elem $p1 func $a) (elem $p2 func $b $b)
+            (func (export "f") (i32.const 8344) (drop) (table.init $p1 (i32.const 0) (i32.const 0) (i32.const 1)) (elem.drop $p1) (elem.drop $p2)))"#),
+        ("empty-passive-data-before-used-passive", r#"(module (memory 1) (data $e "") (data $p1 "a") (data $p2 "bb")
+            (func (export "f") (i32.const 8345) (drop) (memory.init $p1 (i32.const 0) (i32.const 0) (i32.const 1)) (data.drop $p1) (data.drop $p2)))"#),
+        // bulk-memory instructions on active segments in one of several functions (the others use none)
+        ("active-data-ops-in-one-of-three-functions", r#"(module (memory (export "m") 1) (data $d (i32.const 0) "ab") (func (export "peek") (param i32) (result i32) (i32.load8_u (local.get 0)))
+            (func (export "init") (i32.const 8346) (drop) (memory.init $d (i32.const 4) (i32.const 0) (i32.const 0)) (data.drop $d)) (func (export "nop") (i32.const 8347) (drop)))"#),
         // a ref.func target whose only declaration is the initialiser of a global nothing reaches
         ("ref-func-declared-only-by-dead-global", r#"(module (func $f) (global $dead funcref (ref.func $f)) (func (export "run") (i32.const 8330) (drop) (drop (ref.func $f))))"#),
         ("ref-func-declared-only-by-dead-passive-elem-exprs", r#"(module (func $f) (elem $dead funcref (ref.func $f)) (func (export "run") (i32.const 8331) (drop) (drop (ref.func $f))))"#),
